@@ -156,6 +156,18 @@ def directed(stk):
         out.append(base + ['app,0,c3a9'] + tost + ['app,0,e282'] + tost + ['trunc,0,%d' % (fill + 1)] + tost + ['del,0'])
         out.append(base + ['shl16s,0,00e9d83dde00,M=c3a9f09f9880', 'shl32s,0,0001f600000020ac,M=f09f9880e282ac', 'shlw,0,00000041,M=41']
                    + tost + ['app,0,ff'] + tost + ['del,0'])
+    # integer insertion with every remaining capacity 0..21 below each boundary, for texts of 1..20 characters with and
+    # without a sign (the sign and the digits are appended separately: each must be accounted for)
+    for cap in (stk, 2 * stk, 4 * stk):
+        for rem in range(0, 22):
+            ops = ['new,0', 'appc,0,97,%d' % (cap - rem)]
+            for ty, v in (('i32', -1), ('i32', -12345), ('i32', -2147483648), ('ill', -9223372036854775808), ('i64', -999999999),
+                          ('ull', 18446744073709551615), ('u32', 0), ('i64', 12345678901234)):
+                ops.append('shl,0,%s,%d' % (ty, v))
+                ops.append('appc,0,98,1')
+                ops.append('trunc,0,%d' % (cap - rem))
+            ops += ['shl,0,i32,-77', 'app,0,7a7a7a', 'del,0']
+            out.append(ops)
     # floating-point insertion with every remaining capacity 0..16 below each boundary, for renderings of every length
     for cap in (stk, 2 * stk, 4 * stk):
         for rem in range(0, 17):
@@ -191,7 +203,7 @@ class C16(vlib.Check):
         stk = consts()['stack_string_size']
         for h in directed(stk):
             yield 'ss 3 ' + ';'.join(h)
-        n = 500 if tier == 'quick' else 8000
+        n = 500 if tier == 'quick' else 24000
         for _ in range(n):
             h = gen_history(rng, stk, 3, rng.choice([8, 12, 20]))
             if h:
